@@ -35,6 +35,7 @@ type listRun struct {
 	keyOf  func(nextKey []byte) (uint64, bool) // decode NextKey into a model key
 	encKey func(k uint64) []byte               // encode a model key as a request key
 	call   func(p *query.PageRequest) (idents []string, texts []string, next []byte, total uint64, err error)
+	last   []string // identifiers returned by the most recent page request made through one()
 }
 
 func coqPageReq(keyState string, offset, limit uint64, count, reverse bool) string {
@@ -62,6 +63,7 @@ func (lr *listRun) one(ls *listStats, keyState string, key []byte, offset, limit
 	var total uint64
 	var err error
 	good := safely(func() { idents, texts, next, total, err = lr.call(req) })
+	lr.last = idents
 	obs := "None"
 	if good && err == nil {
 		byIdent := map[string]listItem{}
@@ -183,6 +185,179 @@ func (lr *listRun) battery(ls *listStats, r *rng, out *[]string) {
 			lr.one(ls, fmt.Sprintf("(KeyAt %d)", k), lr.encKey(k), 0, 2, false, false, out)
 		}
 	}
+}
+
+// bigBattery: for lists of more than 100 items, page limits above the default page size (100).  Every walk - following
+// NextKey, and by offset in steps of the limit - must return every matching item exactly once, in store order, nothing
+// else, and must end.  The pages are emitted as cases like those of battery.
+func (lr *listRun) bigBattery(ls *listStats, r *rng, out *[]string) {
+	n := uint64(len(lr.items))
+	byIdent := map[string]uint64{}
+	for _, it := range lr.items {
+		byIdent[it.ident] = it.key
+	}
+	collect := func(dst []uint64) []uint64 {
+		for _, id := range lr.last {
+			if k, ok := byIdent[id]; ok {
+				dst = append(dst, k)
+			} else {
+				dst = append(dst, 999999999)
+			}
+		}
+		return dst
+	}
+	for _, lim := range []uint64{101, 120, 500} {
+		for _, rev := range []bool{false, true} {
+			if rev && lim != 120 {
+				continue
+			}
+			var want []uint64
+			for _, it := range lr.items {
+				if it.match {
+					want = append(want, it.key)
+				}
+			}
+			if rev {
+				for i, j := 0, len(want)-1; i < j; i, j = i+1, j-1 {
+					want[i], want[j] = want[j], want[i]
+				}
+			}
+			// following NextKey
+			var collected []uint64
+			var key []byte
+			keyState := "KeyNil"
+			okWalk, ended := true, false
+			for page := 0; page < int(n)+3; page++ {
+				next, ok := lr.one(ls, keyState, key, 0, lim, r.chance(1, 4), rev, out)
+				if !ok {
+					okWalk = false
+					break
+				}
+				collected = collect(collected)
+				if len(next) == 0 {
+					ended = true
+					break
+				}
+				key = next
+				if k, ok := lr.keyOf(next); ok {
+					keyState = fmt.Sprintf("(KeyAt %d)", k)
+				} else {
+					ls.failures = append(ls.failures, monFailure{Property: "C20", What: fmt.Sprintf("%s (%d items): limit %d (reverse=%v): NextKey %x is not the key of a stored item", lr.name, n, lim, rev, next)})
+					okWalk = false
+					break
+				}
+			}
+			if okWalk {
+				if !ended {
+					ls.failures = append(ls.failures, monFailure{Property: "C20", What: fmt.Sprintf("%s (%d items): paging by key with limit %d (reverse=%v) does not end: %d pages returned %d items, %d match", lr.name, n, lim, rev, n+3, len(collected), len(want))})
+				} else if fmt.Sprint(want) != fmt.Sprint(collected) {
+					ls.failures = append(ls.failures, monFailure{Property: "C20", What: fmt.Sprintf("%s (%d items): paging by key with limit %d (reverse=%v) returned %d items, %d match: %s", lr.name, n, lim, rev, len(collected), len(want), walkDiff(want, collected))})
+				}
+				ls.walks++
+			}
+			// by offset, in steps of the limit
+			collected = nil
+			okWalk = true
+			for off := uint64(0); off <= n; off += lim {
+				if _, ok := lr.one(ls, "KeyNil", nil, off, lim, r.chance(1, 2), rev, out); !ok {
+					okWalk = false
+					break
+				}
+				if uint64(len(lr.last)) > lim {
+					ls.failures = append(ls.failures, monFailure{Property: "C20", What: fmt.Sprintf("%s (%d items): a page of limit %d holds %d items", lr.name, n, lim, len(lr.last))})
+				}
+				collected = collect(collected)
+			}
+			if okWalk {
+				if fmt.Sprint(want) != fmt.Sprint(collected) {
+					ls.failures = append(ls.failures, monFailure{Property: "C20", What: fmt.Sprintf("%s (%d items): paging by offset in steps of the limit %d (reverse=%v) returned %d items, %d match: %s", lr.name, n, lim, rev, len(collected), len(want), walkDiff(want, collected))})
+				}
+				ls.walks++
+			}
+		}
+	}
+}
+
+// walkDiff says briefly how a walk differs from the expected sequence of model keys
+func walkDiff(want, got []uint64) string {
+	count := map[uint64]int{}
+	for _, k := range got {
+		count[k]++
+	}
+	var missing, repeated, foreign []uint64
+	wanted := map[uint64]bool{}
+	for _, k := range want {
+		wanted[k] = true
+		if count[k] == 0 {
+			missing = append(missing, k)
+		} else if count[k] > 1 {
+			repeated = append(repeated, k)
+		}
+	}
+	for _, k := range got {
+		if !wanted[k] {
+			foreign = append(foreign, k)
+		}
+	}
+	head := func(l []uint64) string {
+		if len(l) > 6 {
+			return fmt.Sprintf("%v... (%d)", l[:6], len(l))
+		}
+		return fmt.Sprint(l)
+	}
+	if len(missing)+len(repeated)+len(foreign) == 0 {
+		return "same items in another order"
+	}
+	return fmt.Sprintf("missing %s, returned more than once %s, not matching %s (model keys)", head(missing), head(repeated), head(foreign))
+}
+
+// bigListingChain builds a state with more than a default page (100) of items in every list: 120 WRKChains, 120 BEACONs
+// and 120 purchase orders through transactions, 130 streams from 130 senders to one receiver (plus a few to two other
+// receivers) through the keeper, as addSyntheticStreams does.
+func bigListingChain() *chain {
+	c := newChain(fixedCfg())
+	s := &scen{c: c, name: "big-listing"}
+	const nReg, nStr, perBlock = 120, 130, 40
+	for id := 1; id <= nReg; {
+		s.blockStart(2 * time.Second)
+		for k := 0; k < perBlock && id <= nReg; k, id = k+1, id+1 {
+			o := 1
+			if id%10 == 0 {
+				o = 2
+			}
+			s.tx(o, nundCoins(1000), wrktypes.NewMsgRegisterWrkChain(fmt.Sprintf("w%d", id), "gh", fmt.Sprintf("wrkchain %d", id), "geth", c.addrOf(o)))
+			s.tx(o, nundCoins(1000), bcntypes.NewMsgRegisterBeacon(fmt.Sprintf("b%d", id), fmt.Sprintf("beacon %d", id), c.addrOf(o)))
+			s.tx(4, nundCoins(10), enttypes.NewMsgUndPurchaseOrder(c.addrOf(4), sdk.NewInt64Coin("nund", int64(1000+id))))
+			if id%7 == 0 { // some orders are decided: the status filters select sub-lists
+				d := enttypes.StatusAccepted
+				if id%14 == 0 {
+					d = enttypes.StatusRejected
+				}
+				s.tx(0, nundCoins(10), &enttypes.MsgProcessUndPurchaseOrder{PurchaseOrderId: uint64(id), Decision: d, Signer: c.addrOf(0).String()})
+				s.tx(1, nundCoins(10), &enttypes.MsgProcessUndPurchaseOrder{PurchaseOrderId: uint64(id), Decision: d, Signer: c.addrOf(1).String()})
+			}
+		}
+		s.blockEnd()
+	}
+	s.blockStart(2 * time.Second)
+	ctx := c.ctx()
+	sender := func(i int) sdk.AccAddress {
+		bz := make([]byte, 20)
+		binary.BigEndian.PutUint64(bz[4:], hashString(fmt.Sprintf("big-listing-sender-%d", i)))
+		binary.BigEndian.PutUint32(bz[16:], uint32(i))
+		bz[0] = byte(i * 37)
+		return sdk.AccAddress(bz)
+	}
+	for i := 0; i < nStr; i++ {
+		st := strtypes.Stream{Deposit: sdk.NewInt64Coin("nund", 0), FlowRate: int64(1 + i), LastOutflowTime: c.now, DepositZeroTime: c.now, Cancellable: true}
+		c.app.StreamKeeper.SetStream(ctx, c.addrOf(0), sender(i), st)
+		if i < 3 {
+			c.app.StreamKeeper.SetStream(ctx, c.addrOf(1), sender(i), st)
+			c.app.StreamKeeper.SetStream(ctx, c.addrOf(2), sender(0), st)
+		}
+	}
+	s.blockEnd()
+	return c
 }
 
 func be64(x uint64) []byte {
@@ -437,6 +612,7 @@ func cmdLists(args []string) {
 	blocks := fs.Int("blocks", 14, "blocks per history")
 	per := fs.Int("shard", 600, "cases per Coq file")
 	only := fs.String("only", "", "run only the list queries whose name starts with this (e.g. streams)")
+	big := fs.Bool("big", true, "also walk a state with more than 100 items in every list with page limits above 100")
 	fs.Parse(args)
 	seed := seedFromEnv()
 	ls := &listStats{kinds: map[string]int{}}
@@ -465,6 +641,23 @@ func cmdLists(args []string) {
 		}
 		c.close()
 	}
+	if *big {
+		r := newRng(seed*7_000_003 + 999_983)
+		c := bigListingChain()
+		ctx := c.committedCtx()
+		hashBefore := fmt.Sprintf("%X", c.app.LastCommitID().Hash)
+		for _, lr := range listRuns(c, ctx, r) {
+			if *only != "" && !strings.HasPrefix(lr.name, *only) {
+				continue
+			}
+			sizes[fmt.Sprintf("%s:%d items (big listing)", strings.Split(lr.name, "(")[0], len(lr.items))]++
+			lr.bigBattery(ls, r, &items)
+		}
+		if hashBefore != fmt.Sprintf("%X", c.app.LastCommitID().Hash) {
+			ls.failures = append(ls.failures, monFailure{Property: "C20", What: "running the list queries on the big listing changed the application state"})
+		}
+		c.close()
+	}
 	var files []string
 	for i, sh := range shard(items, *per) {
 		name := fmt.Sprintf("cases_lists_%d.v", i)
@@ -485,7 +678,7 @@ func cmdLists(args []string) {
 	}
 	writeJSON(filepath.Join(*out, "stats_lists.json"), map[string]interface{}{
 		"files": files, "evaluations": ls.cases, "distinct_nontrivial": ls.walks,
-		"rule":         "every paginated list query of the four modules (purchase orders by status/purchaser, wrkchains and beacons by owner/moniker, streams, streams by sender, streams by receiver) on states reached by random histories; limits 1,2,3,n/2,n,n+1,n+2,0; key walks following NextKey to the end, offset pages, count_total, reverse, key+offset; ground truth from keeper iteration and point queries; distinct_nontrivial = complete key walks compared with the filtered ground truth",
+		"rule":         "every paginated list query of the four modules (purchase orders by status/purchaser, wrkchains and beacons by owner/moniker, streams, streams by sender, streams by receiver) on states reached by random histories; limits 1,2,3,n/2,n,n+1,n+2,0; key walks following NextKey to the end, offset pages, count_total, reverse, key+offset; plus one state with 120 WRKChains / BEACONs / purchase orders and 130+ streams walked by key and by offset with limits 101, 120, 500; ground truth from keeper iteration and point queries; distinct_nontrivial = complete key walks compared with the filtered ground truth",
 		"distribution": map[string]interface{}{"by_list": ls.kinds, "list_sizes": sizes, "errors": ls.errors, "walks": ls.walks},
 		"samples":      samples, "go_monitor_failures": ls.failures,
 	})
